@@ -136,7 +136,8 @@ def nontrivial(req, obs):
 def finding_key(req, obs, detail):
     """a failure is keyed by the defect class the harness's reference calculators assign
     (`accepted/nested-tail-pad`, `accepted/offsets-only`, `accepted/sizes`, `rejected/nested-tail-pad`,
-    `rejected/sizes`, ...); none is a known finding since /repo 0414772."""
+    `rejected/sizes`, `accepted/empty-struct`, `accepted/site-sbarr`, `accepted/site-sbarr-typedef`, ...); the only
+    known finding is the site class `accepted/site-sbmem`."""
     m = re.match(r"FAIL:((?:accepted|rejected)/[a-z-]+)", detail or "")
     if m:
         return m.group(1)
@@ -161,7 +162,7 @@ def search(ctx):
         out.append("{[2 %s]}" % s)
     reqs = ["C19.check\tsb\t" + t for t in out]
     # every kind of use site with a small differing structure, alone and after an agreeing one
-    G = ["sb", "rwsb", "sbc", "sbtd", "sbreg"]
+    G = ["sb", "rwsb", "sbc", "sbtd", "sbreg", "sbarr", "rwsbarr", "sbarr2", "sbarru", "sbbl", "sbtdarr", "sbarrtd", "sbarrtd2"]
     F = ["bload", "bload2", "rwbload", "rwbload2", "rwbstore", "rwbstoret", "baload", "rwbaload", "rwbastore", "rwbastoret"]
     W = ["m", "u", "t", "me", "p", "a"]
     sites = G + [f + "." + w for f in F for w in W]
@@ -173,8 +174,13 @@ def search(ctx):
                 reqs.append("C19.prog\t%s\t%s\t%s@0" % (tgt, t, s))
             reqs.append("C19.prog\t%s\t{f f};{f f2}\tsb@0,%s@1" % (tgt, s))
             reqs.append("C19.prog\t%s\t{f f};{f f2}\tbload.m@0,%s@1" % (tgt, s))
-    for t in ("{b b}", "{f f2x2}", "{f3x3}", "{i2x2}", "{f @Texture2D}", "{h b2}"):
+    for t in ("{b b}", "{f f2x2}", "{f3x3}", "{i2x2}", "{f @Texture2D}", "{h b2}", "{{} f}", "{f {}}", "{h {} f}", "{}",
+              "{[2 {}] f}", "{[4294967295 f]}", "{[4294967296 f]}", "{[1073741824 f] f}"):
         reqs.append("C19.prog\tvk:np:0\t%s\tsb@0" % t)
+    for k in ("bload", "rwbload", "baload", "rwbaload"):
+        for w in ("dt", "dta"):
+            reqs.append("C19.prog\tvk:np:0\t{f f2}\t%s.%s@0" % (k, w))
+            reqs.append("C19.prog\tmsl:pipe:0\t{f f};{f f2}\t%s.%s@0,sb@1" % (k, w))
     return reqs
 
 
@@ -281,7 +287,7 @@ def cross_check_reference(ctx):
                     bad.append("%s: Lean Spec has a layout (%s), the Rust reference has none (%s)" % (t, val, r))
             elif r != val:
                 bad.append("%s: Lean Spec %s, Rust reference %s" % (t, val, r))
-            elif flag == "nwf" and "{}" not in t:
+            elif flag == "nwf":
                 bad.append("%s: Rust reference has a layout, xwf is false" % t)
     ctx.extra["reference_cross_check"] = {"types": len(asked), "disagreements": len(bad)}
     for b in bad[:5]:
@@ -300,12 +306,14 @@ SPEC = {
     "lean_modules": ["RsslVerif.Thm.C19"],
     "theorems": [T + n for n in [
         "tables_pinned", "checked_sites", "get_matches_spec", "check_sound_agree", "check_sound",
-        "reported_sizes_true", "rejected_differs", "check_complete", "check_total", "vector_free_agree",
+        "reported_sizes_true", "rejected_differs", "check_complete", "check_total", "check_never_panics",
+        "vector_free_agree",
         "agree_iff_same_size_and_offsets", "rejected_really_differs", "check_complete_fields",
-        "collection_sites_covered", "diagnostic_pinned", "property_uses_collected", "check_layout_sound",
-        "check_layout_reports_true_sizes", "buffer_arrays_not_validated",
-        "check_sound_full", "reported_sizes_true_full", "no_layout_no_verdict", "check_complete_partial",
-        "complete_fails_beyond_plain", "empty_struct_unsound",
+        "collection_sites_covered", "diagnostic_pinned", "property_uses_collected_partial", "check_layout_sound_partial",
+        "check_layout_reports_true_sizes",
+        "check_sound_full", "reported_sizes_true_full", "check_never_panics_full", "no_layout_no_verdict",
+        "no_layout_is_unknown", "check_complete_partial",
+        "complete_fails_beyond_plain",
     ]],
     "harness": "c19",
     "nontrivial": nontrivial,
@@ -320,16 +328,21 @@ SPEC = {
                   "alignments are the reference ones; over the full type universe (bool, vectors 1-4, matrices of every shape and "
                   "majorness, enums, multi-dimensional arrays, any nesting depth) types without a layout are never accepted; "
                   "agreeing bool/matrix-free types are never rejected (completeness is partial: bool / matrix types are always "
-                  "'unknown size'); no panic site fires while sizes fit u32. Three holes are proved as negation witnesses and "
-                  "reproduced on the real compiler (known findings): arrays of structured buffers and buffers inside a global struct "
-                  "are not collected, empty structs get size 0 in Metal mode. The model is compared with the real compile() on "
+                  "'unknown size'); no panic site fires at all (sizes beyond u32 are 'unknown size' since /repo 24ea36f), no "
+                  "'unknown size' while sizes fit u32; empty structs (0 bytes in HLSL, 1 in Metal since /repo d25724e) and "
+                  "arrays of structured buffers (collected since /repo d99f90e + bdddd35, whatever modifiers sit between the "
+                  "array layers) are covered by the positive theorems. One hole remains, reproduced on the real compiler (known "
+                  "finding): a buffer inside a global struct is not collected (the abstract module cannot express it, so the "
+                  "collection theorems are named _partial). The model is compared with the real compile() on "
                   "generated whole programs and the property's own oracle (independent Rust calculators, themselves compared with "
                   "the Lean reference on every run) judges the real verdicts and diagnostics.",
     "rule": "two request kinds. C19.check = (use kind, list of element types) as before. C19.prog = (target vk|dx|msl, pipeline "
-            "mode or not, spelling seed, type table, list of use sites): turned into an RSSL program (17 kinds of global "
-            "declaration incl. arrays / typedefs / const / register / bindless / buffer in a struct / parameter / "
-            "ConstantBuffer / cbuffer / plain variables; 10 typed Load<T>/Store<T> forms x 7 wrappers: main, uncalled function, "
-            "instantiated and uninstantiated function template, struct method, buffer parameter, element of a buffer array), "
+            "mode or not, spelling seed, type table, list of use sites): turned into an RSSL program (20 kinds of global "
+            "declaration incl. arrays / typedefs / typedef'd arrays / const / register / bindless / buffer in a struct / "
+            "parameter / ConstantBuffer / cbuffer / plain variables; 10 typed Load<T>/Store<T> forms x 12 wrappers: main, "
+            "uncalled function, instantiated and uninstantiated function template, struct method, buffer parameter, element "
+            "of a buffer array, static initialiser, default argument, sizeof operand, default argument of an uninstantiated "
+            "function template that loads the template parameter T / T[2]), "
             "compiled by the real compile(...validate_layout_consistency(true)); verdict, blamed location and the four numbers "
             "of the message are compared with the model and judged by two independent reference layout calculators (accepted => "
             "every structure at a site the property names has the same size and the same offset of every field recursively; "
@@ -341,9 +354,11 @@ SPEC = {
     "trusted_base": [
         "Lean 4.33 kernel; axioms propext / Classical.choice / Quot.sound only (audited by #print axioms)",
         "tools/gens/c19.py: LayoutTables (ScalarType::get_size, the arms of get_type_layout and of offsets_match as op programs "
-        "over a fixed statement vocabulary, check_layout's top-level adjustments, comparison, matched objects and intrinsics) and "
+        "over a fixed statement vocabulary incl. the checked_* forms, check_layout's top-level adjustments, comparison, matched "
+        "objects and intrinsics, the statements that peel a global's type, the is_dependent_type skip) and "
         "LayoutSites (ObjectType variants, get_structured_type users, the T-templated object methods of intrinsic_data.rs, the "
-        "fixed text of the two collection loops, of get_type_location, of compile()'s validation statement and of the two "
+        "fixed text of the two collection loops, of get_type_location / remove_modifier / get_non_array_id / "
+        "is_dependent_type, of compile()'s validation statement and of the two "
         "diagnostics) - re-run on /repo's working tree every time; any other text is a broken obligation",
         "Model/Layout.lean + Model/LayoutCollect.lean: interpreter of the op programs, the recursion skeletons and the two "
         "collection loops; Driver/C19.lean::moduleOf: how the type checker turns the generated programs into globals and "
@@ -351,12 +366,14 @@ SPEC = {
         "Spec/Layout.lean, Spec/LayoutFull.lean and the Rust reference calculators in harness/src/c19.rs: our reading of HLSL "
         "structured-buffer packing and of the Metal layout rules (MSL spec 2.2-2.4; bool 4 vs 1 byte; matrix = columns of "
         "vectors as emitted by the MSL exporter; empty struct 0 vs 1 byte); the Lean and Rust versions are compared on 1545 "
-        "types every run",
+        "types every run (empty structs included)",
     ],
     "assumptions": [
         "u32 arithmetic is modelled with overflow checks as in the harness build (overflow-checks = true); a release build wraps instead of panicking",
-        "TypeLayer::Modifier below the element type is transparent and is not modelled; a type id denotes one type "
-        "(hypothesis `Consistent` of check_layout_sound: the type registry interns types)",
+        "TypeLayer::Modifier below the element type is transparent and is not modelled (so is_dependent_type's look through "
+        "Modifier / Vector / Matrix layers onto a template parameter is outside the model's types; Array is inside); a type "
+        "id denotes one type (hypothesis `Consistent` of check_layout_sound_partial: the type registry interns types); the "
+        "registry never stacks a Modifier on a Modifier (combine_modifier asserts it), remove_modifier looks below one",
         "the property's 'structure used as the element type of a structured buffer' is read as: of a buffer that exists, i.e. "
         "a global (possibly an array element or a struct member) - a function parameter of buffer type that nothing is "
         "passed to is not judged; ConstantBuffer<T>, cbuffer members and TriangleStream<T> are not named by the property",
